@@ -50,8 +50,12 @@ func (vc *VC) entryEnv() *SpecEnv {
 	fn := vc.fn
 	env.resolve = func(name string) (Term, bool) {
 		if strings.HasSuffix(name, "_0") { // <param>_0: the value of a parameter at function entry (parameters are mutable)
+			base := strings.TrimSuffix(name, "_0")
+			if to, ok := vc.renames[base]; ok { // the parameter was renamed since the claims were recorded (locals.go)
+				base = to
+			}
 			for _, p := range fn.Params {
-				if p.Name()+"_0" == name {
+				if p.Name() == base {
 					return vc.vals[p], true
 				}
 			}
